@@ -792,6 +792,12 @@ static void runC33T(Case& c) {
     bool tagged;
   };
   std::vector<std::vector<Range>> ranges((size_t)T);
+  std::vector<std::vector<std::pair<long, typename Vec::iterator>>> atLeastIts((size_t)T);
+  struct EndSnap {
+    long sizeBefore, sizeAfter;
+    typename Vec::iterator b, e;
+  };
+  std::vector<std::vector<EndSnap>> endSnaps((size_t)readers);
   std::vector<std::thread> th;
   for (long t = 0; t < T; ++t) {
     auto ops = splitOps(c.p.s("ops" + std::to_string(t)));
@@ -839,7 +845,8 @@ static void runC33T(Case& c) {
           seq += k;
           totalGrowth.fetch_add(k);
         } else { // grow_to_at_least
-          v.grow_to_at_least((size_t)k);
+          auto it = v.grow_to_at_least((size_t)k);
+          atLeastIts[(size_t)t].push_back(std::make_pair(k, it)); // checked after all threads joined
           long m = maxAtLeast.load();
           while (k > m && !maxAtLeast.compare_exchange_weak(m, k)) {
           }
@@ -851,8 +858,14 @@ static void runC33T(Case& c) {
   }
   std::vector<std::thread> rd;
   for (long q = 0; q < readers; ++q)
-    rd.emplace_back([&]() {
+    rd.emplace_back([&, q]() {
       for (int round = 0; round < 6 && !stop.load(); ++round) {
+        // begin() / end() / size() are documented as safe during concurrent growth; the iterators are examined after the join
+        long s0 = (long)v.size();
+        auto e = v.end();
+        auto bgn = v.begin();
+        long s1 = (long)v.size();
+        endSnaps[(size_t)q].push_back(EndSnap{s0, s1, bgn, e});
         for (size_t i = 0; i < savedRefs.size(); ++i)
           VF_CHECK(c, savedRefs[i]->tag == (int64_t)(1000000 + (long)i), "reference-invalidated", "a reference taken before the concurrent growth no longer reads its element");
         for (long i = 0; i < pre; ++i)
@@ -868,6 +881,37 @@ static void runC33T(Case& c) {
     t.join();
   long size = (long)v.size();
   long exact = pre + totalGrowth.load();
+  // iterators obtained while other threads were growing the vector must denote real positions
+  for (long t = 0; t < T; ++t)
+    for (auto& pr : atLeastIts[(size_t)t]) {
+      long d = (long)(pr.second - v.begin());
+      // (element n-1 if the vector was already long enough, else the start of the range the call added - which other
+      // growers may have pushed beyond n-1 in the meantime): whatever it is, it must denote an element of the vector
+      VF_CHECK(c, d >= 0 && d < size && &*pr.second == &v[(size_t)d], "returned-iterator",
+               "grow_to_at_least(%ld) returned an iterator that does not denote an element of the vector (distance from begin() = %ld, size %ld)", pr.first, d, size);
+    }
+  for (auto& snaps : endSnaps)
+    for (auto& sn : snaps) {
+      long d = (long)(sn.e - sn.b);
+      VF_CHECK(c, d >= sn.sizeBefore && d <= sn.sizeAfter, "end-iterator", "end() taken during concurrent growth is %ld past begin(), size() was %ld before and %ld after the call", d,
+               sn.sizeBefore, sn.sizeAfter);
+      bool same = sn.b + d == sn.e && (d == size ? sn.e == v.end() : &*(sn.b + d) == &v[(size_t)d]);
+      // raw fields of the pointer-based iterator (bucket word, bucket start, position, bucket end): position d is the
+      // first slot of its bucket iff position == bucket start
+      uintptr_t raw[4] = {0, 0, 0, 0}, rawGood[4] = {0, 0, 0, 0};
+      auto good = sn.b + d;
+      if (sizeof(sn.e) == sizeof(raw)) {
+        std::memcpy(raw, &sn.e, sizeof raw);
+        std::memcpy(rawGood, &good, sizeof rawGood);
+      }
+      bool bucketStart = raw[1] == raw[2];
+      if (!same)
+        c.fail(bucketStart ? "end-iterator-at-bucket-start" : "end-iterator",
+               "end() taken during concurrent growth (position " + std::to_string(d) + (bucketStart ? ", first slot of a bucket" : ", inside a bucket") +
+                   ") does not compare equal to the iterator of that position: a loop `it != e` over [begin, e) does not stop there [bucket " + std::to_string(raw[0] & 63) +
+                   " start/ptr/end " + std::to_string(raw[1]) + "/" + std::to_string(raw[2]) + "/" + std::to_string(raw[3]) + " vs bucket " + std::to_string(rawGood[0] & 63) + " " +
+                   std::to_string(rawGood[1]) + "/" + std::to_string(rawGood[2]) + "/" + std::to_string(rawGood[3]) + "]");
+    }
   // grow_to_at_least adds an amount that depends on the interleaving: size >= both bounds, and every index beyond the tagged ones is default constructed
   VF_CHECK(c, size >= exact && size >= maxAtLeast.load(), "final-size", "final size %ld, but %ld elements were added by exact-growth calls and grow_to_at_least asked for %ld", size,
            exact, maxAtLeast.load());
@@ -1206,10 +1250,56 @@ static void runC41(Case& c) {
 
 // ------------------------------------------------------------------------------------------------
 // C42 PoolAllocator (thread safe) / NoLockPoolAllocator (serial)
+// slab -> size, kept in relaxed atomics: readable from any thread in native runs without adding happens-before
+// edges of the harness's own (which would hide missing synchronisation in the allocator from TSan)
 struct SlabLedger {
-  std::map<char*, size_t> live; // slab -> size
-  int allocCalls = 0, deallocCalls = 0;
-  std::string err;
+  static constexpr int kMax = 256;
+  std::atomic<char*> base[kMax];
+  std::atomic<size_t> len[kMax];
+  std::atomic<int> n{0}, allocCalls{0}, deallocCalls{0}, bad{0};
+  SlabLedger() {
+    for (int i = 0; i < kMax; ++i) {
+      base[i].store(nullptr, std::memory_order_relaxed);
+      len[i].store(0, std::memory_order_relaxed);
+    }
+  }
+  void add(char* p, size_t sz) {
+    int i = n.fetch_add(1, std::memory_order_relaxed);
+    if (i < kMax) {
+      len[i].store(sz, std::memory_order_relaxed);
+      base[i].store(p, std::memory_order_relaxed);
+    }
+    allocCalls.fetch_add(1, std::memory_order_relaxed);
+  }
+  bool remove(char* p) {
+    deallocCalls.fetch_add(1, std::memory_order_relaxed);
+    int m = std::min(n.load(std::memory_order_relaxed), kMax);
+    for (int i = 0; i < m; ++i) {
+      char* e = p;
+      if (base[i].compare_exchange_strong(e, nullptr, std::memory_order_relaxed))
+        return true;
+    }
+    bad.store(1, std::memory_order_relaxed);
+    return false;
+  }
+  int liveCount() const {
+    int m = std::min(n.load(std::memory_order_relaxed), kMax), k = 0;
+    for (int i = 0; i < m; ++i)
+      if (base[i].load(std::memory_order_relaxed))
+        ++k;
+    return k;
+  }
+  // 1: inside a slab at a chunk-multiple offset, 0: inside but misplaced, -1: outside every slab
+  int locate(const char* p, size_t chunk) const {
+    int m = std::min(n.load(std::memory_order_relaxed), kMax);
+    for (int i = 0; i < m; ++i) {
+      char* b = base[i].load(std::memory_order_relaxed);
+      size_t l = len[i].load(std::memory_order_relaxed);
+      if (b && p >= b && p + chunk <= b + l)
+        return (size_t)(p - b) % chunk == 0 ? 1 : 0;
+    }
+    return -1;
+  }
 };
 static void genC42(Rng& r, KV& kv, const Opts&) {
   kv.set("safe", r.range(0, 1));
@@ -1242,26 +1332,19 @@ static void runC42T(Case& c) {
   {
     PA pa(chunk, slab,
           [&led](size_t n) -> void* {
-            char* p = static_cast<char*>(malloc(n));
-            led.live[p] = n;
-            ++led.allocCalls;
+            char* p = static_cast<char*>(calloc(1, n)); // zeroed: no stale canaries from an earlier case of this process
+            led.add(p, n);
             return p;
           },
           [&led](void* p) {
-            if (!led.live.erase(static_cast<char*>(p)))
-              led.err = "deallocFunc called with a pointer allocFunc never returned (or twice)";
-            ++led.deallocCalls;
+            led.remove(static_cast<char*>(p));
             free(p);
           });
     auto checkChunk = [&](char* p) {
-      bool inside = false;
-      for (auto& kv : led.live)
-        if (p >= kv.first && p + chunk <= kv.first + kv.second) {
-          inside = true;
-          if ((size_t)(p - kv.first) % chunk != 0)
-            c.fail("chunk-misplaced", "a chunk does not start at a multiple of chunkSize inside its slab");
-        }
-      if (!inside)
+      int where = led.locate(p, chunk);
+      if (where == 0)
+        c.fail("chunk-misplaced", "a chunk does not start at a multiple of chunkSize inside its slab");
+      if (where < 0)
         c.fail("chunk-outside-slab", "alloc() returned a chunk that does not lie within any slab obtained from allocFunc");
       uint32_t* w = reinterpret_cast<uint32_t*>(p);
       if (chunk >= 8 && w[0] == 0xC4A27EEDu)
@@ -1311,10 +1394,10 @@ static void runC42T(Case& c) {
             reinterpret_cast<uint32_t*>(p)[0] = 0;
         h.clear();
       }
-      int slabsBefore = (int)led.live.size();
+      int slabsBefore = led.liveCount();
       size_t capacity = pa.totalChunkCapacity();
       pa.clear();
-      int callsBefore = led.allocCalls;
+      int callsBefore = led.allocCalls.load();
       long after = c.p.i("after");
       std::vector<char*> again;
       for (long i = 0; i < after; ++i) {
@@ -1322,7 +1405,7 @@ static void runC42T(Case& c) {
         checkChunk(p);
         again.push_back(p);
         if ((size_t)(i + 1) <= capacity)
-          VF_CHECK(c, led.allocCalls == callsBefore, "clear-did-not-reuse-slabs",
+          VF_CHECK(c, led.allocCalls.load() == callsBefore, "clear-did-not-reuse-slabs",
                    "after clear(), allocation %ld called allocFunc again although the %d existing slab(s) hold %zu chunks", i + 1, slabsBefore, capacity);
       }
       if ((size_t)after > capacity)
@@ -1331,8 +1414,9 @@ static void runC42T(Case& c) {
       VF_CHECK(c, uniq.size() == again.size(), "chunk-handed-out-twice", "the same chunk was returned twice after clear()");
     }
   }
-  VF_CHECK(c, led.err.empty(), "slab-release", "%s", led.err.c_str());
-  VF_CHECK(c, led.live.empty() && led.allocCalls == led.deallocCalls, "slab-release", "%d slabs were obtained but %d released by the destructor", led.allocCalls, led.deallocCalls);
+  VF_CHECK(c, !led.bad.load(), "slab-release", "deallocFunc called with a pointer allocFunc never returned (or twice)");
+  VF_CHECK(c, led.liveCount() == 0 && led.allocCalls.load() == led.deallocCalls.load(), "slab-release", "%d slabs were obtained but %d released by the destructor", led.allocCalls.load(),
+           led.deallocCalls.load());
   c.nontrivial = overlap.load() || c.classes.count("allocated_beyond_existing_slabs_after_clear");
   if (overlap.load())
     c.cls("alloc/dealloc_calls_overlapped");
